@@ -32,14 +32,14 @@ static double est_delay(const float *x,const float *y,long n,int ch,int c,int L,
   if(bd<=-maxd||bd>=maxd) return 1e9; double a=rr[bd-1+maxd], b=rr[bd+maxd], c2=rr[bd+1+maxd]; double den=a-2*b+c2; double frac=den!=0?0.5*(a-c2)/den:0; return bd+frac; }
 static double snr_db(const float *x,const float *y,long n,int ch,int c,int L,long skip){ double s=0,e=0; for(long i=skip;i<n-L-8;i++){ double a=x[i*ch+c], b=y[(i+L)*ch+c]; s+=a*a; e+=(a-b)*(a-b); } return 10*log10((s+1e-20)/(e+1e-20)); }
 
-typedef struct { int Fs,ch,app,mode,bw,fidx,bitrate,vbr,cx,api_in,api_out; } rtcfg;
+typedef struct { int Fs,ch,app,mode,bw,fidx,bitrate,vbr,cx,api_in,api_out,fch,dch; } rtcfg;   /* fch: OPUS_SET_FORCE_CHANNELS value, dch: decoder channels */
 /* run encoder+decoder of one build over the input; out gets n*ch floats (delayed by the lookahead); returns lookahead or <0 */
 #define DEFINE_RUN(NAME,P,HAS24) \
-static int NAME(const rtcfg *c,const float *in,long n,float *out,long *bytes){ int err; OpusEncoder *e=P##opus_encoder_create(c->Fs,c->ch,c->app,&err); OpusDecoder *d=P##opus_decoder_create(c->Fs,c->ch,&err); if(!e||!d) return -1; \
+static int NAME(const rtcfg *c,const float *in,long n,float *out,long *bytes){ int err; OpusEncoder *e=P##opus_encoder_create(c->Fs,c->ch,c->app,&err); OpusDecoder *d=P##opus_decoder_create(c->Fs,c->dch,&err); if(!e||!d) return -1; if(c->fch!=OPUS_AUTO) P##opus_encoder_ctl(e,OPUS_SET_FORCE_CHANNELS(c->fch)); \
   if(c->mode!=OPUS_AUTO) P##opus_encoder_ctl(e,VK_SET_FORCE_MODE_REQUEST,c->mode); P##opus_encoder_ctl(e,OPUS_SET_BANDWIDTH(c->bw)); P##opus_encoder_ctl(e,OPUS_SET_BITRATE(c->bitrate)); P##opus_encoder_ctl(e,OPUS_SET_VBR(c->vbr)); P##opus_encoder_ctl(e,OPUS_SET_COMPLEXITY(c->cx)); \
   opus_int32 la=0; P##opus_encoder_ctl(e,OPUS_GET_LOOKAHEAD(&la)); int fs=vk_frame_samples(c->Fs,c->fidx); static opus_int16 s16[5760*2], o16[5760*2]; static opus_int32 s24[5760*2], o24[5760*2]; unsigned char pk[4000]; *bytes=0; \
   for(long pos=0;pos+fs<=n;pos+=fs){ const float *x=in+pos*c->ch; int len; if(c->api_in==1){ for(int i=0;i<fs*c->ch;i++) s16[i]=vc_f2s(x[i]); len=P##opus_encode(e,s16,fs,pk,4000); } else if(c->api_in==2&&HAS24){ for(int i=0;i<fs*c->ch;i++) s24[i]=(opus_int32)lrintf(x[i]*8388608.f); len=P##opus_encode24(e,s24,fs,pk,4000); } else len=P##opus_encode_float(e,x,fs,pk,4000); \
-    if(len<=0){ la=-2; break; } *bytes+=len; float *y=out+pos*c->ch; int rc; if(c->api_out==1){ rc=P##opus_decode(d,pk,len,o16,fs,0); for(int i=0;i<fs*c->ch;i++) y[i]=o16[i]*(1.f/32768.f); } else if(c->api_out==2){ rc=P##opus_decode24(d,pk,len,o24,fs,0); for(int i=0;i<fs*c->ch;i++) y[i]=o24[i]*(1.f/8388608.f); } else rc=P##opus_decode_float(d,pk,len,y,fs,0); if(rc!=fs){ la=-3; break; } } \
+    if(len<=0){ la=-2; break; } *bytes+=len; float *y=out+pos*c->dch; int rc; if(c->api_out==1){ rc=P##opus_decode(d,pk,len,o16,fs,0); for(int i=0;i<fs*c->dch;i++) y[i]=o16[i]*(1.f/32768.f); } else if(c->api_out==2){ rc=P##opus_decode24(d,pk,len,o24,fs,0); for(int i=0;i<fs*c->dch;i++) y[i]=o24[i]*(1.f/8388608.f); } else rc=P##opus_decode_float(d,pk,len,y,fs,0); if(rc!=fs){ la=-3; break; } } \
   P##opus_encoder_destroy(e); P##opus_decoder_destroy(d); return la; }
 opus_int32 ref_opus_encode24(OpusEncoder *st,const opus_int32 *pcm,int frame_size,unsigned char *data,opus_int32 max_data_bytes);
 opus_int32 rfx_opus_encode24(OpusEncoder *st,const opus_int32 *pcm,int frame_size,unsigned char *data,opus_int32 max_data_bytes);
@@ -56,32 +56,36 @@ static void mode_rt(void){
   vc_rng r; vc_case_rng(&r,4); rtcfg c; c.Fs=VC_PICK(&r,vk_rates); c.ch=1+vc_below(&r,2); c.app=VC_PICK(&r,vk_apps); c.mode= c.app==OPUS_APPLICATION_RESTRICTED_LOWDELAY?VK_MODE_CELT:(vc_chance(&r,1,5)?OPUS_AUTO:VK_MODE_SILK+(int)vc_below(&r,3)); c.fidx= c.mode==VK_MODE_CELT?vc_below(&r,9):vc_range(&r,2,8);
   int nyq= c.Fs==8000?0:c.Fs==12000?1:c.Fs==16000?2:c.Fs==24000?3:4; c.bw=OPUS_AUTO; if(c.mode==VK_MODE_SILK) c.bw=OPUS_BANDWIDTH_NARROWBAND+(int)vc_below(&r,(nyq<2?nyq:2)+1); else if(c.mode==VK_MODE_HYBRID){ if(nyq<3){ c.mode=VK_MODE_SILK; c.bw=OPUS_BANDWIDTH_NARROWBAND+nyq; if(c.fidx<2) c.fidx=3; } else c.bw=OPUS_BANDWIDTH_SUPERWIDEBAND+(int)vc_below(&r,nyq-2); }
   int perch= c.mode==VK_MODE_SILK?vc_range(&r,16000,40000): c.mode==VK_MODE_HYBRID?vc_range(&r,32000,64000): c.mode==VK_MODE_CELT?vc_range(&r,48000,256000):vc_range(&r,24000,128000); c.bitrate=perch*c.ch; c.vbr=vc_below(&r,2); c.cx=VC_PICK(&r,((const int[]){0,5,10})); c.api_in=vc_below(&r,3); c.api_out=vc_below(&r,3);
-  int sig=VC_PICK(&r,sigs); int ident= c.ch==2?(int)vc_below(&r,5):0;   /* stereo identity stimuli: 0 generator default, 1 left only, 2 right only, 3 unequal level, 4 anti-phase */
-  double secs=2.0+vc_unit(&r)*1.5; long n=(long)(secs*c.Fs); int fs=vk_frame_samples(c.Fs,c.fidx); n=n/fs*fs; float *in=(float*)malloc(sizeof(float)*n*c.ch), *yt=(float*)calloc(n*c.ch,sizeof(float)), *yr=(float*)calloc(n*c.ch,sizeof(float));
+  c.fch=OPUS_AUTO; c.dch=c.ch; { int q=(int)vc_below(&r,8); if(c.ch==2&&q==0) c.fch=1; else if(c.ch==2&&q==1) c.dch=1; else if(c.ch==1&&q<=1) c.dch=2; else if(c.ch==2&&q==2) c.fch=2; }   /* forced mono stream, mono decoder on a stereo stream, stereo decoder on a mono stream */
+  int mixed=(c.ch==2&&(c.fch==1||c.dch==1)); int sig=VC_PICK(&r,sigs); int ident= c.ch==2?(int)vc_below(&r,5):0; if(mixed&&ident==4) ident=3;   /* stereo identity stimuli: 0 generator default, 1 left only, 2 right only, 3 unequal level, 4 anti-phase */
+  double secs=2.0+vc_unit(&r)*1.5; long n=(long)(secs*c.Fs); int fs=vk_frame_samples(c.Fs,c.fidx); n=n/fs*fs; float *in=(float*)malloc(sizeof(float)*n*c.ch), *yt=(float*)calloc(n*2,sizeof(float)), *yr=(float*)calloc(n*2,sizeof(float)), *ex=(float*)malloc(sizeof(float)*n*2);
   vc_siggen g; vs_init(&g,sig,c.Fs,c.ch,(float)(0.15+0.35*vc_unit(&r)),vc_next(&r)); vs_fill(&g,in,(int)n);
   if(c.ch==2){ vc_siggen g2; vs_init(&g2,VC_PICK(&r,sigs),c.Fs,1,0.3f,vc_next(&r)); float *m=(float*)malloc(sizeof(float)*n); vs_fill(&g2,m,(int)n); for(long i=0;i<n;i++){ if(ident==1) in[2*i+1]=0; else if(ident==2) in[2*i]=0; else if(ident==3) in[2*i+1]=0.25f*in[2*i]; else if(ident==4) in[2*i+1]=-in[2*i]; else in[2*i+1]=0.6f*in[2*i+1]+0.4f*m[i]; } free(m); }
-  long bt=0,br=0; int la=run_tree(&c,in,n,yt,&bt); int lr=run_ref(&c,in,n,yr,&br); char desc[220]; snprintf(desc,sizeof desc,"Fs=%d ch=%d app=%d mode=%d bw=%d frame=%d bitrate=%d vbr=%d cx=%d api %d->%d signal=%s ident=%d",c.Fs,c.ch,c.app,c.mode,c.bw,fs,c.bitrate,c.vbr,c.cx,c.api_in,c.api_out,vs_names[sig],ident);
+  /* ex: what each output channel is expected to carry (the input channel itself, or the down-mix 0.5(L+R) of a mono stream / mono decoder) */
+  for(long i=0;i<n;i++) for(int k=0;k<c.dch;k++) ex[i*c.dch+k]= c.ch==1?in[i]: mixed?0.5f*(in[2*i]+in[2*i+1]): in[2*i+k];
+  long bt=0,br=0; int la=run_tree(&c,in,n,yt,&bt); int lr=run_ref(&c,in,n,yr,&br); char desc[300]; snprintf(desc,sizeof desc,"Fs=%d ch=%d app=%d mode=%d bw=%d frame=%d bitrate=%d vbr=%d cx=%d api %d->%d signal=%s ident=%d force_channels=%d decoder_channels=%d",c.Fs,c.ch,c.app,c.mode,c.bw,fs,c.bitrate,c.vbr,c.cx,c.api_in,c.api_out,vs_names[sig],ident,c.fch,c.dch);
   if(la<0||lr<0){ vc_viol("roundtrip:failed","encode/decode failed (tree %d, reference %d) %s",la,lr,desc); goto out; } if(la!=lr){ vc_viol("lookahead:differs-from-reference","OPUS_GET_LOOKAHEAD=%d, frozen reference reports %d (%s)",la,lr,desc); goto out; }
   { int expect=c.Fs/400+(c.app==OPUS_APPLICATION_RESTRICTED_LOWDELAY?0:c.Fs/250); if(la!=expect){ vc_viol("lookahead:value","OPUS_GET_LOOKAHEAD=%d, documented %d (%s)",la,expect,desc); goto out; } }
   long skip=c.Fs/5; vc_count("roundtrips",1);
-  for(int ci=0;ci<c.ch;ci++){ if((ident==1&&ci==1)||(ident==2&&ci==0)) continue;   /* silent channel: no delay / SNR to measure */
+  if(mixed) vc_count("roundtrips_with_downmix",1); if(c.dch!=c.ch) vc_count("roundtrips_decoder_channels_differ",1);
+  for(int ci=0;ci<c.dch;ci++){ if(!mixed&&c.ch==2&&((ident==1&&ci==1)||(ident==2&&ci==0))) continue;   /* silent channel: no delay / SNR to measure */
     int celt_only=(c.mode==VK_MODE_CELT); int maxd=(int)(0.003*c.Fs);
     /* (1) delay: only meaningful where the waveform is preserved (the frozen build itself reaches >= 12 dB SNR) */
-    double sr=snr_db(in,yr,n,c.ch,ci,la,skip), st=snr_db(in,yt,n,c.ch,ci,la,skip); vc_min("snr_tree_minus_reference_db",st-sr);
-    if(sr>=12&&sig!=VS_SWEEP&&sig!=VS_VOICED&&sig!=VS_MULTITONE){ double dt=est_delay(in,yt,n,c.ch,ci,la,maxd,skip), dr=est_delay(in,yr,n,c.ch,ci,la,maxd,skip); double tol=celt_only?C04_DELAY_CELT_SAMPLES:C04_DELAY_SILK_MS*c.Fs/1000.0; if(tol<C04_DELAY_CELT_SAMPLES) tol=C04_DELAY_CELT_SAMPLES;
+    double sr=snr_db(ex,yr,n,c.dch,ci,la,skip), st=snr_db(ex,yt,n,c.dch,ci,la,skip); vc_min("snr_tree_minus_reference_db",st-sr);
+    if(sr>=12&&sig!=VS_SWEEP&&sig!=VS_VOICED&&sig!=VS_MULTITONE){ double dt=est_delay(ex,yt,n,c.dch,ci,la,maxd,skip), dr=est_delay(ex,yr,n,c.dch,ci,la,maxd,skip); double tol=celt_only?C04_DELAY_CELT_SAMPLES:C04_DELAY_SILK_MS*c.Fs/1000.0; if(tol<C04_DELAY_CELT_SAMPLES) tol=C04_DELAY_CELT_SAMPLES;
       if(fabs(dr)<=tol){ vc_max(celt_only?"delay_error_samples_celt":"delay_error_samples_silk_hybrid",fabs(dt)); vc_max("delay_estimate_tree_minus_reference_samples",fabs(dt-dr)); { double tol_abs=celt_only?0.9:(0.15*c.Fs/1000.0>0.9?0.15*c.Fs/1000.0:0.9); /* the estimator's own noise (also present in the frozen build's estimate, which had to be within `tol`) must not turn into an alarm: the absolute bound stays below one sample / 0.15 ms, the sharp clause is the comparison with the frozen build */ if(fabs(dt)>tol_abs) tol=-1; }
         if(tol<0||fabs(dt-dr)>C04_DELAY_VS_REF_SAMPLES+(celt_only?0:0.02*c.Fs/1000.0)){ vc_viol("delay:mismatch","decoded signal is delayed by lookahead%+.3f samples (tolerance %.3f; frozen reference %+.3f) channel %d (%s)",dt,tol,dr,ci,desc); goto out; } vc_count("delays_checked",1); } else vc_count("delay_estimator_not_applicable",1); }
     /* (2) fidelity relative to the frozen build on the identical input */
     if(st<sr-C04_SNR_MARGIN_DB&&st<C04_SNR_GOOD_DB){ vc_viol("fidelity:snr","SNR %.2f dB, the frozen reference build reaches %.2f dB on the same input and settings (channel %d; %s)",st,sr,ci,desc); goto out; }
-    { double Ei[21],Et[21],Er[21]; band_energies(in+(size_t)skip*c.ch,n-skip-la-8,c.ch,ci,c.Fs,Ei); band_energies(yt+(size_t)(skip+la)*c.ch,n-skip-la-8,c.ch,ci,c.Fs,Et); band_energies(yr+(size_t)(skip+la)*c.ch,n-skip-la-8,c.ch,ci,c.Fs,Er); double tot=0; for(int b=0;b<21;b++) tot+=Ei[b];
+    { double Ei[21],Et[21],Er[21]; band_energies(ex+(size_t)skip*c.dch,n-skip-la-8,c.dch,ci,c.Fs,Ei); band_energies(yt+(size_t)(skip+la)*c.dch,n-skip-la-8,c.dch,ci,c.Fs,Et); band_energies(yr+(size_t)(skip+la)*c.dch,n-skip-la-8,c.dch,ci,c.Fs,Er); double tot=0; for(int b=0;b<21;b++) tot+=Ei[b];
       for(int b=0;b<21;b++){ if(band_hz[b+1]>c.Fs/2||Ei[b]<1e-4*tot) continue; double et=fabs(10*log10((Et[b]+1e-12*tot)/Ei[b])), er=fabs(10*log10((Er[b]+1e-12*tot)/Ei[b])); vc_max("band_error_tree_minus_reference_db",et-er); if(et>er+C04_BAND_MARGIN_DB){ vc_viol("fidelity:band-energy","band %d (%.0f-%.0f Hz): energy error %.2f dB, frozen reference %.2f dB on the same input (channel %d; %s)",b,band_hz[b],band_hz[b+1],et,er,ci,desc); goto out; } vc_count("bands_checked",1); } }
     /* (3) channel identity: sign and level */
-    { double cc=0,ei=0,eo=0; for(long i=skip;i<n-la-8;i++){ double a=in[i*c.ch+ci], b=yt[(i+la)*c.ch+ci]; cc+=a*b; ei+=a*a; eo+=b*b; } if(ei>1e-6){ if(sr>=6&&cc<=0){ vc_viol("identity:sign","channel %d comes back with inverted sign (correlation %.3g) (%s)",ci,cc/sqrt(ei*eo+1e-30),desc); goto out; } double lv=10*log10(eo/ei+1e-12), lref; { double er2=0; for(long i=skip;i<n-la-8;i++){ double b=yr[(i+la)*c.ch+ci]; er2+=b*b; } lref=10*log10(er2/ei+1e-12); } vc_max("level_error_tree_minus_reference_db",fabs(lv)-fabs(lref)); if(fabs(lv)>fabs(lref)+C04_LEVEL_DB){ vc_viol("identity:level","channel %d level changes by %.2f dB (frozen reference %.2f dB) (%s)",ci,lv,lref,desc); goto out; } } } }
-  if(c.ch==2&&(ident==1||ident==2)){ int sil=ident==1?1:0, act=1-sil; double es=0,ea=0,esr=0; for(long i=skip;i<n-la-8;i++){ double a=yt[(i+la)*2+sil], b=yt[(i+la)*2+act], q=yr[(i+la)*2+sil]; es+=a*a; ea+=b*b; esr+=q*q; } double xt=10*log10((es+1e-12)/(ea+1e-12)), xr=10*log10((esr+1e-12)/(ea+1e-12)); vc_max("crosstalk_db_tree_minus_reference",xt-xr); if(xt>-15&&xt>xr+3){ vc_viol("identity:crosstalk","%s-only input: the silent channel comes back at %.1f dB relative to the active one (frozen reference %.1f dB) (%s)",ident==1?"left":"right",xt,xr,desc); goto out; } vc_count("single_channel_stimuli",1); }
-  vc_sig3((uint64_t)c.mode|((uint64_t)c.fidx<<12),(uint64_t)(c.Fs/8000)|((uint64_t)c.ch<<3)|((uint64_t)ident<<5)|((uint64_t)c.api_in<<8)|((uint64_t)c.api_out<<10),(uint64_t)sig|((uint64_t)(c.app&7)<<5));
+    { double cc=0,ei=0,eo=0; for(long i=skip;i<n-la-8;i++){ double a=ex[i*c.dch+ci], b=yt[(i+la)*c.dch+ci]; cc+=a*b; ei+=a*a; eo+=b*b; } if(ei>1e-6){ if(sr>=6&&cc<=0){ vc_viol("identity:sign","channel %d comes back with inverted sign (correlation %.3g) (%s)",ci,cc/sqrt(ei*eo+1e-30),desc); goto out; } double lv=10*log10(eo/ei+1e-12), lref; { double er2=0; for(long i=skip;i<n-la-8;i++){ double b=yr[(i+la)*c.dch+ci]; er2+=b*b; } lref=10*log10(er2/ei+1e-12); } vc_max("level_error_tree_minus_reference_db",fabs(lv)-fabs(lref)); if(fabs(lv)>fabs(lref)+C04_LEVEL_DB){ vc_viol("identity:level","channel %d level changes by %.2f dB (frozen reference %.2f dB) (%s)",ci,lv,lref,desc); goto out; } } } }
+  if(c.ch==2&&c.dch==2&&!mixed&&(ident==1||ident==2)){ int sil=ident==1?1:0, act=1-sil; double es=0,ea=0,esr=0; for(long i=skip;i<n-la-8;i++){ double a=yt[(i+la)*2+sil], b=yt[(i+la)*2+act], q=yr[(i+la)*2+sil]; es+=a*a; ea+=b*b; esr+=q*q; } double xt=10*log10((es+1e-12)/(ea+1e-12)), xr=10*log10((esr+1e-12)/(ea+1e-12)); vc_max("crosstalk_db_tree_minus_reference",xt-xr); if(xt>-15&&xt>xr+3){ vc_viol("identity:crosstalk","%s-only input: the silent channel comes back at %.1f dB relative to the active one (frozen reference %.1f dB) (%s)",ident==1?"left":"right",xt,xr,desc); goto out; } vc_count("single_channel_stimuli",1); }
+  vc_sig3((uint64_t)c.mode|((uint64_t)c.fidx<<12),(uint64_t)(c.Fs/8000)|((uint64_t)c.ch<<3)|((uint64_t)ident<<5)|((uint64_t)c.api_in<<8)|((uint64_t)c.api_out<<10)|((uint64_t)(c.fch&3)<<12)|((uint64_t)c.dch<<14),(uint64_t)sig|((uint64_t)(c.app&7)<<5));
   if(vc_want_sample()) vc_sample("{\"mode\":\"rt\",\"config\":\"%s\",\"lookahead\":%d,\"bytes_tree\":%ld,\"bytes_reference\":%ld}",desc,la,bt,br);
 out:
-  free(in); free(yt); free(yr);
+  free(in); free(yt); free(yr); free(ex);
 }
 
 /* ---------------------------------------------------------------- ms */
